@@ -162,6 +162,11 @@ class CInt:
                 return self.atoms[key]
             raise NoEval('no value for %s' % ir.fmt(key))
         if k == 'sizeof':
+            key = ('sizeof', ir.fmt(e))
+            if key in self.atoms:
+                return self.atoms[key]
+            if 'struct Header' in ir.fmt(e):
+                return 8 * len(self.P.records['Header']['fields']) if 'Header' in self.P.records else 24
             from .loops import ev as lev, NoEval as LNo
             try:
                 return lev(e, {})
